@@ -2,7 +2,7 @@
 SPECIFICATION Spec
 CONSTANTS
   Shapes <- ShapesTW
-  StepVals <- Steps123
+  StepVals <- Steps12
   MaxSlices = 1
   MaxWrites = 1
   MaxReshapes = 0
